@@ -53,7 +53,7 @@ commonName = supplied
 basicConstraints = CA:FALSE
 keyUsage = digitalSignature, keyEncipherment
 extendedKeyUsage = serverAuth
-subjectAltName = DNS:{san}{", IP:127.0.0.1" if san == "localhost" else ""}
+subjectAltName = {"IP:" + san if san[0].isdigit() else "DNS:" + san}
 """)
             cmd = ["openssl", "ca", "-batch", "-config", cnf, "-cert", o(f"{ca}.pem"), "-keyfile", o(f"{ca}.key"), "-in", o(f"{name}.csr"),
                    "-out", o(f"{name}.pem"), "-extensions", "leaf_ext", "-notext"]
@@ -66,6 +66,8 @@ subjectAltName = DNS:{san}{", IP:127.0.0.1" if san == "localhost" else ""}
 
     leaf("valid", "ca1", "localhost")
     leaf("wronghost", "ca1", "wrong.example")
+    # valid for the IP literal only (iPAddress SAN, no dNSName): accepted for a 127.0.0.1 target, a name mismatch for a localhost target
+    leaf("validip", "ca1", "127.0.0.1")
     leaf("expired", "ca1", "localhost", startdate="20200101000000Z", enddate="20210101000000Z")
     leaf("unknownca", "ca3", "localhost")
     # expired only moments ago (a verifier that tolerates "clock skew" would accept it)
@@ -75,7 +77,7 @@ subjectAltName = DNS:{san}{", IP:127.0.0.1" if san == "localhost" else ""}
     leaf("justexpired", "ca1", "localhost", startdate=fmt(now - datetime.timedelta(days=1)), enddate=fmt(now - datetime.timedelta(seconds=45)))
     # self-signed leaf
     sh(["openssl", "req", "-x509", "-newkey", "rsa:2048", "-nodes", "-keyout", o("selfsigned.key"), "-out", o("selfsigned.pem"), "-days", "3650",
-        "-subj", "/CN=localhost", "-addext", "subjectAltName=DNS:localhost,IP:127.0.0.1", "-addext", "basicConstraints=CA:FALSE"])
+        "-subj", "/CN=localhost", "-addext", "subjectAltName=DNS:localhost", "-addext", "basicConstraints=CA:FALSE"])
     # a tiny Ed25519 root (DER < 256 bytes, so its outer SEQUENCE uses the short 0x30 0x81 length form) and a leaf under it
     mincnf = o("ca4.cnf")
     open(mincnf, "w").write("""[req]
@@ -101,7 +103,7 @@ authorityKeyIdentifier = none
     assert os.path.getsize(o("ca4.der")) < 256, os.path.getsize(o("ca4.der"))
     sh(["openssl", "req", "-newkey", "ed25519", "-nodes", "-keyout", o("valided.key"), "-out", o("valided.csr"), "-subj", "/CN=localhost"])
     ext = o("valided.ext")
-    open(ext, "w").write("basicConstraints=CA:FALSE\nkeyUsage=digitalSignature\nextendedKeyUsage=serverAuth\nsubjectAltName=DNS:localhost,IP:127.0.0.1\n")
+    open(ext, "w").write("basicConstraints=CA:FALSE\nkeyUsage=digitalSignature\nextendedKeyUsage=serverAuth\nsubjectAltName=DNS:localhost\n")
     sh(["openssl", "x509", "-req", "-in", o("valided.csr"), "-CA", o("ca4.pem"), "-CAkey", o("ca4.key"), "-set_serial", "77", "-days", "3650", "-extfile", ext, "-out", o("valided.pem")])
     os.remove(o("valided.csr"))
     assert "OK" in sh(["openssl", "verify", "-CAfile", o("ca4.pem"), o("valided.pem")])
